@@ -2,24 +2,7 @@
    hostsfile.DefaultStorage (C08).  Go maps are association lists; the iteration
    order of a map is not observable (Range* results are compared as sets).
    [lower] (strings.ToLower) and address equality are parameters. *)
-From Verif Require Import Base.GoPrim Base.Strings Model.Hosts.
-
-(* ---- bufio.ScanLines over a delivered byte stream (contract of the standard
-        library: split at LF, one trailing CR dropped per line, no token for an
-        empty rest at EOF) ---- *)
-Definition drop_cr (l : gostring) : gostring :=
-  match rev l with
-  | 13 :: r => rev r
-  | _ => l
-  end.
-
-Definition scan_lines (bs : gostring) : list gostring :=
-  let pieces := split_on 10 bs in
-  let pieces' := match rev pieces with
-                 | [] :: r => rev r          (* empty rest after the last LF (or empty input) *)
-                 | _ => pieces
-                 end in
-  map drop_cr pieces'.
+From Verif Require Import Base.GoPrim Base.Strings Std.Bufio Model.Hosts.
 
 Section Parse.
   Variable A : Type.
@@ -50,18 +33,29 @@ Section Parse.
   Definition invalid_lines (evs : list pevent) : list Z :=
     flat_map (fun e => match e with PInvalid _ _ n _ => [n] | _ => [] end) evs.
 
-  (* [delivered]: the bytes the reader produced before EOF or its error;
-     [read_err]: the reader failed; [handles]: dst is a HandleSet *)
-  Definition parse_model (src : gostring) (delivered : gostring) (read_err handles : bool)
+  (* Parse over the reader's answers [rs]; [limit] = max(cap(buf), bufio.MaxScanTokenSize);
+     [handles]: dst is a HandleSet *)
+  Definition parse_ret_of (evs : list pevent) (e : scan_end) (handles : bool) : parse_ret :=
+    match e with
+    | EndEOF => if handles then RetNil
+                else match invalid_lines evs with
+                     | [] => RetNil
+                     | ls => RetParsing ls
+                     end
+    | _ => RetScanning
+    end.
+
+  Definition parse_run (limit : Z) (src : gostring) (rs : list response) (handles : bool)
     : list pevent * parse_ret :=
-    let evs := parse_lines src 1 (scan_lines delivered) in
-    (evs,
-     if read_err then RetScanning
-     else if handles then RetNil
-     else match invalid_lines evs with
-          | [] => RetNil
-          | ls => RetParsing ls
-          end).
+    let '(toks, e) := scan_all limit rs in
+    let evs := parse_lines src 1 toks in
+    (evs, parse_ret_of evs e handles).
+
+  (* the specification: the events of the lines of the delivered stream *)
+  Definition parse_spec (src : gostring) (rs : list response) (handles : bool)
+    : list pevent * parse_ret :=
+    let evs := parse_lines src 1 (scan_lines (delivered rs)) in
+    (evs, parse_ret_of evs (end_of rs) handles).
 End Parse.
 
 Arguments PAdd {A}.
@@ -132,6 +126,26 @@ Section Storage.
   Definition range_addrs (s : storage) : list (gostring * list A) :=
     map (fun e => (fst e, os_vals (snd e))) (st_addrs s).
 
+  Fixpoint list_eqb {K} (eqb : K -> K -> bool) (a b : list K) : bool :=
+    match a, b with
+    | [], [] => true
+    | x :: a', y :: b' => eqb x y && list_eqb eqb a' b'
+    | _, _ => false
+    end.
+
+  (* DefaultStorage.Equal for two non-nil storages *)
+  Definition storage_equal (s o : storage) : bool :=
+    Nat.eqb (length (st_names s)) (length (st_names o)) &&
+    Nat.eqb (length (st_addrs s)) (length (st_addrs o)) &&
+    forallb (fun e => match assoc_get aeqb (fst e) (st_names o) with
+                      | None => false
+                      | Some on => list_eqb eqb_str (os_vals (snd e)) (os_vals on)
+                      end) (st_names s).
+
   Definition storage_run (recs : list (A * list gostring)) : storage :=
     fold_left (fun s r => storage_add s (fst r) (snd r)) recs storage_new.
 End Storage.
+
+Arguments mk_oset {K}.
+Arguments os_keys {K}.
+Arguments os_vals {K}.
